@@ -14,7 +14,7 @@ for s in seeds:
         print(s, "patch does not apply"); continue
     try:
         res = []
-        for c in [s] + CROSS.get(s, []):
+        for c in [s[:3]] + CROSS.get(s, []):
             p = subprocess.run(["./check", c, "--tier", "quick"], cwd=V, capture_output=True, text=True, env=dict(os.environ, VERIF_EVID_SUFFIX=".seed"))
             nv = sum(1 for l in p.stdout.splitlines() if l.startswith("VIOLATION"))
             print(s, "->", c, "rc", p.returncode, "violations", nv, flush=True)
